@@ -68,6 +68,44 @@ def report_known_gaps(chk):
             chk.violation("crash:g1-N3LO:%s" % type(exc).__name__, "%s: %s: %s (polarised g1 has no N3LO classes)" % (desc, type(exc).__name__, str(exc)[:90]), dict(cell=args, exception=str(exc)[:200]))
 
 
+def multi_point_patrol(chk, n):
+    """one runner serving points in several flavour regions (nf = 3, 4, 5, 6), scale variations on: the configuration of each point is documented, so the
+    run must end with a finite result or an explicit rejection like the single-point runs do"""
+    from lib import cards, runs
+    dist, crashed = {}, []
+    for _ in range(n):
+        fns = chk.rng.choice(["ZM-VFNS", "ZM-VFNS", "ZM-VFNS", "FFNS", "FONLL-FFNS"])
+        proc, proj = chk.rng.choice([("EM", "electron"), ("NC", "electron"), ("CC", "neutrino"), ("CC", "positron")])
+        pto = chk.rng.choice([1, 1, 2]) if (fns == "ZM-VFNS" or proc == "CC") else 1
+        kind = chk.rng.choice(["F2", "FL", "F3", "g1"] if proc == "NC" else (["F2", "FL"] if proc == "EM" else ["F2", "FL", "F3"]))
+        hv = chk.rng.choice(["total", "light", "charm"])
+        tmc = chk.rng.choice([0, 0, 1])
+        th = cards.theory_card(FNS=fns, NfFF=chk.rng.choice([3, 4]), PTO=pto, PTODIS=pto, TMC=tmc, MP=0.5, RenScaleVar=True, FactScaleVar=True)
+        q2s = [2.0, 10.0, 100.0, 40000.0]
+        chk.rng.shuffle(q2s)
+        name = kind + "_" + hv
+        ob = cards.obs_card({name: [dict(x=0.25, Q2=q) for q in q2s]}, prDIS=proc, ProjectileDIS=proj)
+        cls, out, exc = outcome.classify(lambda: runs.run(th, ob))
+        k = "%s/%s/pto%d/%s" % (fns, proc, pto, {0: "ok", 1: "rejected", 2: "crash", None: "environment"}[cls])
+        dist[k] = dist.get(k, 0) + 1
+        if cls == 2:
+            crashed.append(dict(theory=dict(FNS=fns, NfFF=th["NfFF"], PTO=pto, TMC=tmc), process=proc, projectile=proj, observable=name, Q2s=q2s,
+                                exception="%s: %s" % (type(exc).__name__, str(exc)[:120])))
+        elif cls == 0:
+            for r in out[name]:
+                for kk, (v, e) in r.orders.items():
+                    if not (np.all(np.isfinite(v)) and np.all(np.isfinite(e))):
+                        crashed.append(dict(theory=dict(FNS=fns, NfFF=th["NfFF"], PTO=pto, TMC=tmc), process=proc, observable=name, Q2s=q2s, exception="non-finite entries under key %s" % (kk,)))
+                        break
+    chk.patrol["multi_point_runs"] = dict(cases=n, failures=len(crashed), distribution=dist,
+                                          rule="one run_yadism call with the same observable at Q2 = 2, 10, 100, 40000 (nf = 3..6 in ZM-VFNS) in random order, both scale variations on: "
+                                               "finite result or explicit rejection, never an internal error")
+    for c in crashed[:3]:
+        chk.violation("crash-multipoint:%s" % c["exception"][:40], "a run over several flavour regions ends with an internal error or non-finite entries: %s %s %s at Q2 = %s: %s"
+                      % (c["observable"], c["process"], c["theory"], c["Q2s"], c["exception"]), dict(multi=c))
+    return crashed
+
+
 def run(chk):
     chk.trusted = TRUSTED
     quick = chk.tier == "quick"
@@ -97,6 +135,7 @@ def run(chk):
     bad2 = wlayer.run_combiner(chk, 200 if quick else 3000, name="combiner_outcomes")
     chk.oblige("correspondence combiner (kernel lists and outcome classes, all schemes and orders)", not bad2, str(bad2[:1])[:500])
     report_known_gaps(chk)
+    multi_point_patrol(chk, 10 if quick else 120)
     if chk.red() and not chk.violations:
         chk.violation("unproved", "a theorem or correspondence of C16 no longer checks: %s" % [o[0] for o in chk.red()][:5],
                       dict(red=[(o[0], o[2]) for o in chk.red()][:8]), found_input=False)
@@ -108,6 +147,13 @@ def replay(path):
     p = r["replay"]
     if "kind" in p:
         cls, _o, exc = real_cell(p["kind"], p["heavyness"], p["process"], p["fns"], p["NfFF"], p["PTO"], p["TMC"], p.get("parts", "full"), Q2=p.get("Q2", 30.0))
+        print("replay:", cls, exc)
+        return 1 if cls == 2 else 0
+    if "multi" in p:
+        c = p["multi"]
+        th = cards.theory_card(PTODIS=c["theory"]["PTO"], MP=0.5, RenScaleVar=True, FactScaleVar=True, **c["theory"])
+        ob = cards.obs_card({c["observable"]: [dict(x=0.25, Q2=q) for q in c["Q2s"]]}, prDIS=c["process"], ProjectileDIS=c.get("projectile", "electron"))
+        cls, _o, exc = outcome.classify(lambda: runs.run(th, ob))
         print("replay:", cls, exc)
         return 1 if cls == 2 else 0
     print("recorded:", r["what"]); return 1
